@@ -23,6 +23,8 @@ pub mod tla;
 pub mod trace;
 pub mod typed;
 pub mod val;
+#[cfg(jrsonnet_verif)]
+pub mod verif;
 
 use std::{
 	any::Any,
@@ -348,6 +350,8 @@ impl State {
 		let file = match file {
 			Entry::Occupied(ref mut d) => d.get_mut(),
 			Entry::Vacant(v) => {
+				#[cfg(jrsonnet_verif)]
+				crate::verif::emit_key("imp", "load", 0, 0, &path);
 				let data = self.import_resolver().load_file_contents(&path)?;
 				v.insert(FileData::new_string(
 					std::str::from_utf8(&data)
@@ -368,6 +372,8 @@ impl State {
 		let file = match file {
 			Entry::Occupied(ref mut d) => d.get_mut(),
 			Entry::Vacant(v) => {
+				#[cfg(jrsonnet_verif)]
+				crate::verif::emit_key("imp", "load", 0, 0, &path);
 				let data = self.import_resolver().load_file_contents(&path)?;
 				v.insert(FileData::new_bytes(data.as_slice().into()))
 			}
@@ -394,6 +400,8 @@ impl State {
 		let file = match file {
 			Entry::Occupied(ref mut d) => d.get_mut(),
 			Entry::Vacant(v) => {
+				#[cfg(jrsonnet_verif)]
+				crate::verif::emit_key("imp", "load", 0, 0, &path);
 				let data = self.import_resolver().load_file_contents(&path)?;
 				v.insert(FileData::new_string(
 					std::str::from_utf8(&data)
@@ -403,6 +411,8 @@ impl State {
 			}
 		};
 		if let Some(val) = &file.evaluated {
+			#[cfg(jrsonnet_verif)]
+			crate::verif::emit_key("imp", "hit", 0, 0, &path);
 			return Ok(val.clone());
 		}
 		let code = file
@@ -421,9 +431,13 @@ impl State {
 		}
 		let parsed = file.parsed.as_ref().expect("just set").clone();
 		if file.evaluating {
+			#[cfg(jrsonnet_verif)]
+			crate::verif::emit_key("imp", "cycle", 0, 0, &path);
 			bail!(InfiniteRecursionDetected)
 		}
 		file.evaluating = true;
+		#[cfg(jrsonnet_verif)]
+		crate::verif::emit_key("imp", "eval_begin", 0, 0, &path);
 		// Dropping file cache guard here, as evaluation may use this map too
 		drop(file_cache);
 		let res = evaluate(self.create_default_context(file_name), &parsed);
@@ -436,6 +450,8 @@ impl State {
 		};
 		let file = file.get_mut();
 		file.evaluating = false;
+		#[cfg(jrsonnet_verif)]
+		crate::verif::emit("imp", if res.is_ok() { "eval_ok" } else { "eval_err" }, 0, 0);
 		match res {
 			Ok(v) => {
 				file.evaluated = Some(v.clone());
